@@ -10,7 +10,7 @@ PROPS = {
     "C03": {
         "level": "exploration",
         "budget": {"quick": 80, "thorough": 900},
-        "runs": {"quick": 6000, "thorough": 400000},
+        "runs": {"quick": 12000, "thorough": 400000},
         "rule": "one run = 5..40 MeasureClockOffsetIP calls (each up to 3 attempts) of the real IPClient (interleaved mode on in 2/3 of the runs, recording filter) against 1..8 real "
                 "runIPServer listeners sharing the real timestamp store, gaps 10 ms..10 s (both sides of the 3 s interleave window), server clock offset from 0 to +-30 years with skew up to "
                 "+-100 ppm and steps between exchanges, worlds placed just before the 2036 era rollover, per-direction latency 0..21 ms plus long delays up to 2 s, drop/duplicate up to 30 %, "
